@@ -95,7 +95,8 @@ def mkEnv (gr recursive rej : Sexp) : Option (Beap.Env Nat) := do
   pure { G := G, W := W, filter := fun p => !rejected.contains p, recursive := ← recursive.bool? }
 
 /-- `(beap.run grammar recursive rejected script fuel)` →
-    `(ok steps costLists banks queues empties deleted spec)`; `spec` = for every yielded program
+    `(ok steps costLists banks queues empties deleted spec sorted)`; `sorted` = `Beap.sortedB` of the final
+    `_cost_lists[start]`; `spec` = for every yielded program
     `(member cost)` by the specification (`G.gen`, `Beap.costOf`) -/
 def handleRun (gr recursive rej script fuel : Sexp) : Option Sexp := do
   let E ← mkEnv gr recursive rej
@@ -105,7 +106,8 @@ def handleRun (gr recursive rej script fuel : Sexp) : Option Sexp := do
   | none => pure (.list [.atom "undef"])
   | some (g, out, ys) =>
     pure (.list ([.atom "ok", .list out] ++ encTables E g.st ++
-      [.list (ys.map fun p => .list [ofBool (G.gen E.G p E.G.start), encORat (Beap.costOf E p E.G.start)])]))
+      [.list (ys.map fun p => .list [ofBool (G.gen E.G p E.G.start), encORat (Beap.costOf E p E.G.start)]),
+       ofBool (Beap.sortedB (g.st.clOf E.G.start))]))
 
 /-- `(beap.init grammar recursive fuel)` → `(ok costLists banks queues empties deleted minCostSpec minCostOK stable)`:
     the tables after `_init_non_terminal_(start); _reevaluate_()` and the minimal cost of every
